@@ -291,7 +291,6 @@ theorem C10_selectors_from (r : Rep ℝ) (hz : hasZero r.es = false) (ss : List 
     obtain ⟨ihv, ihe⟩ := ih
     have hxs := run_xs r ss
     have hes := run_es r ss
-    have hz' : hasZero (r.run ss).es = false := by rw [hes]; exact hz
     rw [run_snoc, C10_lastErrSel_snoc]
     cases s
     · -- useStd
